@@ -848,6 +848,7 @@ var _ = strings.HasPrefix
 func (b *Body) yield(blk *ssa.BasicBlock, st State) {
 	ft := b.ft
 	P := ft.e.prelude
+	pre := st.clone()
 	for _, g := range P.GhostOrder {
 		old := ft.region(st, g)
 		ft.havocRegion(st, g)
@@ -860,5 +861,17 @@ func (b *Body) yield(blk *ssa.BasicBlock, st State) {
 			y := fmt.Sprintf("j!%d", ft.count("qv"))
 			ft.fact(Forall([][2]string{{y, ks}}, Imp(Sel(old, L(y)), Sel(st[g], L(y))), []*T{Sel(st[g], L(y))}))
 		}
+	}
+	// declared rely clauses (two-state)
+	if len(ft.e.contracts.Rely) > 0 && pre != nil {
+		for _, cl := range ft.e.contracts.Rely {
+			env := &CEnv{ft: ft, vars: map[string]*CV{}, cur: st, old: pre, pkg: ft.e.pkgOf(cl.Pkg)}
+			if g, err := env.EvalBool(cl.Expr); err == nil {
+				ft.fact(g)
+			} else {
+				ft.shapeFail(cl, err)
+			}
+		}
+		ft.trusted["rely: other requests only take steps allowed by the rely clauses ("+fmt.Sprint(len(ft.e.contracts.Rely))+"), which every step of the functions in the rg tier is proved to satisfy (guarantee obligations)"] = true
 	}
 }
